@@ -908,7 +908,8 @@ hwloc__xml_import_object(hwloc_topology_t topology,
   /* check PUs */
   if (obj->type == HWLOC_OBJ_PU) {
     /* obj->cpuset!=NULL was checked above */
-    if (hwloc_bitmap_weight(obj->cpuset) != 1 || !hwloc_bitmap_isset(obj->cpuset, obj->os_index)) {
+    if (hwloc_bitmap_weight(obj->cpuset) != 1 || !hwloc_bitmap_isset(obj->cpuset, obj->os_index)
+	|| !hwloc_bitmap_isequal(obj->cpuset, obj->complete_cpuset)) {
       if (hwloc__xml_verbose())
 	fprintf(stderr, "%s: PU object P#%u with invalid cpuset\n",
 		state->global->msgprefix, obj->os_index);
@@ -919,7 +920,8 @@ hwloc__xml_import_object(hwloc_topology_t topology,
   /* check NUMA nodes */
   if (obj->type == HWLOC_OBJ_NUMANODE) {
     /* obj->nodeset!=NULL was checked above */
-    if (hwloc_bitmap_weight(obj->nodeset) != 1 || !hwloc_bitmap_isset(obj->nodeset, obj->os_index)) {
+    if (hwloc_bitmap_weight(obj->nodeset) != 1 || !hwloc_bitmap_isset(obj->nodeset, obj->os_index)
+	|| !hwloc_bitmap_isequal(obj->nodeset, obj->complete_nodeset)) {
       if (hwloc__xml_verbose())
 	fprintf(stderr, "%s: NUMA node object P#%u with invalid nodeset\n",
 		state->global->msgprefix, obj->os_index);
